@@ -1507,3 +1507,29 @@ mut(
     "        default = _param[\"doc\"]\n        while default is not None:\n            _param[\"doc\"], default = extract_default(\n                _param[\"doc\"], emit_default_doc=emit_default_doc\n            )\n",
     mention=("extract_default",),
 )
+
+mut(
+    "c04-simple-typed-attr-always-valued",
+    "C04",
+    "C04.classdefault",
+    AU,
+    "        return None if val is None else set_value(None if val == NoneStr else val)\n",
+    "        return set_value(None if val in (None, NoneStr) else val)\n",
+)
+mut(
+    "c04-defaults-from-other-iterable",
+    "C04",
+    "C04.align",
+    "cdd/function/emit.py",
+    "                else cdd.shared.ast_utils.set_value(param[1].get(\"default\"))\n            ),\n            params_no_kwargs,\n",
+    "                else cdd.shared.ast_utils.set_value(param[1].get(\"default\"))\n            ),\n            filter(lambda param: \"default\" in param[1], params_no_kwargs),\n",
+)
+mut(
+    "c04-required-excludes-default",  # the repaired form must be accepted (known finding then goes quiet)
+    "C04",
+    "C04.required",
+    AU,
+    "                            if required is True\n",
+    "                            if required is True and default is None\n",
+    expect="ok",
+)
